@@ -61,13 +61,40 @@ theorem accounts_agree (prog : List Nat) (present : Bool) (sh : SetShape) (h : W
     agreeAll (flatten prog present (setToIdl sh)) (clientSlots prog present sh) = true := by
   rw [accounts_faithful prog present sh h]; exact agreeAll_refl _
 
-/-- Outside `WF`: a `MaybeSigner<false, _>` over a `Signer<_>` (legal Rust) — the IDL says `signer`
-(and validation still demands the signature), the client meta says not. The analogous
-`MaybeMut<false, Mut<_>>` likewise. Recorded as an observation about the client side (C14), not an
-IDL defect: the IDL agrees with validation. -/
-theorem downgrade_witness :
-    flatten [7] true (setToIdl (.signer false (.signer true .info)))
-      ≠ clientSlots [7] true (.signer false (.signer true .info)) := by decide
+/-- Pass-through modifiers over checking ones (`MaybeSigner<false, Signer<_>>`, `MaybeMut<false, Mut<_>>`,
+any depth) are inside `WF` since /repo 10a861d (`SIGNER || T::meta().signer`): IDL and client agree and
+both keep the inner flag. (Before that fix this was a counterexample, `downgrade_witness`.) -/
+theorem passthrough_keeps_flags :
+    flatten [7] true (setToIdl (.signer false (.mutable false (.mutable true (.signer true .info)))))
+      = [⟨true, true, .fresh⟩]
+    ∧ clientSlots [7] true (.signer false (.mutable false (.mutable true (.signer true .info))))
+      = [⟨true, true, .fresh⟩] := by decide
+
+/-- **Multi-variant account sets.** For every variant id (named or the un-named default) of a derived
+struct whose fields carry any combination of per-variant / un-named `address` and `Seeds` attributes,
+the flattened IDL of that variant agrees with the (variant-independent) client metas. -/
+theorem variant_accounts_agree (prog : List Nat) (present : Bool) (id : Option String) (fs : List VField)
+    (h : ∀ f ∈ fs, VFieldOk prog f = true) :
+    agreeAll (flatten prog present (variantToIdl id fs)) (variantClient prog present fs) = true := by
+  simp only [variantToIdl, variantClient, flatten]
+  exact fields_agree prog present id fs h
+
+/-- Strictness of the per-id lookup: a field without an attribute for the requested variant
+contributes exactly its plain account set — in particular no address and no seeds borrowed from an
+attribute of another (or the un-named) variant. -/
+theorem variant_lookup_strict (id : Option String) (f : VField)
+    (h : ∀ a ∈ f.attrs, a.id ≠ id) : fieldToIdl id f = setToIdl f.inner := by
+  have key : ∀ as : List FieldAttr, (∀ a ∈ as, a.id ≠ id) → lookupAttr id as = none := by
+    intro as
+    induction as with
+    | nil => intro _; rfl
+    | cons a as ih =>
+      intro h
+      have hne : a.id ≠ id := h a (by simp)
+      simp only [lookupAttr, hne, if_false]
+      exact ih (fun b hb => h b (by simp [hb]))
+  have := key f.attrs h
+  simp [fieldToIdl, this]
 
 /-- **`discriminant_to_usize`** succeeds exactly on discriminants of at most ONE byte (the guard
 compares `len * 8` — bits — with `size_of::<usize>()` — bytes), and then returns the little-endian
